@@ -28,6 +28,7 @@ theorem c19_term_truthy_irrelevant (W : World V) (t' : V → Bool) : ∀ (t : Te
   | index k t ih => intro β; simp only [evalTerm, ih]; rfl
   | call m args t ih => intro β; simp only [evalTerm, ih]; rfl
   | flatten id t ih => intro β; simp only [evalTerm, ih]; rfl
+  | concat id t ih => intro β; simp only [evalTerm, ih]; rfl
 
 theorem c19_args_truthy_irrelevant (W : World V) (t' : V → Bool) : ∀ (ts : List (Term V)) (β : Bnd V),
     evalArgs (W.withTruthy t') D ts β = evalArgs W D ts β := by
